@@ -376,6 +376,15 @@ def evaluate(c: Dict[str, Any]) -> Tuple[List[Any], Dict[str, Any]]:
 
 
 def replay(case: Dict[str, Any]) -> List[Dict[str, Any]]:
+    if case.get('tls_listener'):
+        from vf.props import c05_tls, c11
+        try:
+            with K.unpatched():
+                vs, _ = c05_tls.evaluate(case)
+        finally:
+            c05_tls.stop()
+            c11.cleanup()
+        return [{'property': ID, 'clause': cl, 'features': ft, 'case': case, 'observed': ob, 'expected': ex} for (cl, ft, ob, ex) in vs]
     vs, _ = evaluate(case)
     return [{'property': ID, 'clause': cl, 'features': ft, 'case': case, 'observed': ob, 'expected': ex} for (cl, ft, ob, ex) in vs]
 
@@ -395,11 +404,35 @@ def shards(tier: str) -> List[Dict[str, Any]]:
         out.append({'name': 'random-faults-%d' % i, 'kind': 'random', 'examples': 400 if q else 6000})
     for i in range(3 if q else 9):
         out.append({'name': 'interleavings-%d' % i, 'kind': 'interleave', 'examples': 500 if q else 8000})
+    for i in range(2 if q else 6):
+        out.append({'name': 'tls-listener-%d' % i, 'kind': 'tlslive', 'examples': 30 if q else 250})
     return out
 
 
 def run_shard(spec: Dict[str, Any], seed: int, acc: Any) -> None:
     from vf.props import c07
+    if spec['kind'] == 'tlslive':
+        from vf.props import c05_tls, c11
+        advs = st.one_of(st.just(['canary']), st.just(['canary']),
+                         st.tuples(st.just('adv'), st.sampled_from(['plaintext', 'close', 'partial', 'garbage']), st.binary(min_size=1, max_size=60)).map(list))
+        # the silent adversary costs seconds: at most one per case, in one case out of eight
+        strat = st.builds(lambda steps, silent, pos: {'tls_listener': True,
+                                                      'steps': (steps[:pos % (len(steps) + 1)] + [['silent']] + steps[pos % (len(steps) + 1):]) if silent == 0 else steps},
+                          st.lists(advs, min_size=2, max_size=6), st.integers(0, 7), st.integers(0, 6))
+
+        def chk_tls(c: Dict[str, Any]) -> List[Any]:
+            vs, info = c05_tls.evaluate(c)
+            if info.get('inconclusive'):
+                acc.dontcare += 1
+            acc.case(c, info['canaries'] >= 1 and len(info['kinds']) >= 2, labels=['tls-listener'] + ['adv:' + k_ for k_ in info['kinds'] if k_ != 'canary'])
+            return vs
+        try:
+            with K.unpatched():
+                hyp.drive(strat, chk_tls, acc, max_examples=spec['examples'], seed=seed, shrink=False)
+        finally:
+            c05_tls.stop()
+            c11.cleanup()
+        return
     try:
         if spec['kind'] == 'enum':
             for pattern in spec['patterns']:
